@@ -97,9 +97,9 @@ def seed_args(fn, spec, interp, decl):
         if spec.adt in ty:
             args.append(Struct())
         elif want and want != "self":
-            args.append(interp.param(i, spec.parse(want)))
+            args.append(interp.param(i, spec.parse(want), ty))
         else:
-            args.append(interp.param(i, None))
+            args.append(interp.param(i, None, ty))
     return args
 
 
@@ -162,6 +162,7 @@ def run(tier):
         inlined.update(it.inlined)
         res.count("arithmetic nodes evaluated", it.n_arith)
         res.count("helper call instances inlined", it.n_calls_inlined)
+        res.count("integer casts examined", it.n_casts)
         n_nodes += it.n_arith
         if not outcomes:
             report("R-DIM|%s|no-return" % label, "%s has no returning path" % label, "%s:%s" % (fn.file, fn.line), "R-DIM")
